@@ -454,6 +454,22 @@ class _Run(object):
                 obj = np.array(idx, dtype=np.int64)
             elif how == "ndarray_i16":
                 obj = np.array(idx, dtype=np.int16)
+            elif how == "range":
+                # a range object is an index iterable like any other (it is NOT a slice: negative members wrap)
+                if n and len(raw) >= 3 and not oob:
+                    start = (raw[0] % (2 * n)) - n
+                    step = (raw[1] % 5) - 2 or 1
+                    count = raw[2] % (n + 2)
+                    while count and not all(-n <= start + step * k < n for k in range(count)):
+                        count -= 1
+                    obj = range(start, start + step * count, step)
+                    idx = list(obj)
+                else:
+                    obj = range(0)
+                    if not oob:
+                        idx = []
+                    else:
+                        obj = list(idx)
             else:
                 obj = iter(list(idx))
             ctx.event("index=%s%s" % (how, "/oob" if oob else ""))
@@ -680,7 +696,7 @@ def s_ops():
             src=_SRC,
             idx=st.lists(_ELT, min_size=0, max_size=8),
             oob=st.sampled_from([False] * 7 + [True]),
-            **{"as": st.sampled_from(["list", "tuple", "ndarray", "ndarray", "ndarray_i16", "iter"])}
+            **{"as": st.sampled_from(["list", "tuple", "ndarray", "ndarray", "ndarray_i16", "iter", "range", "range"])}
         ),
         "repeat": lambda: _op("repeat", src=_SRC, n=st.integers(0, 3)),
         "add": lambda: _op("add", src=_SRC, other=_SRC),
@@ -747,6 +763,7 @@ def _menu():
         o("index", idx=[5, 3, 3], oob=False, **{"as": "list"}),  # reduced modulo 2n, minus n
         o("index", idx=[0, 1, 2, 3], oob=False, **{"as": "ndarray"}),
         o("index", idx=[2], oob=False, **{"as": "tuple"}),
+        o("index", idx=[7, 1, 5], oob=False, **{"as": "range"}),  # a descending range reaching index 0
         o("index", idx=[], oob=False, **{"as": "list"}),
         o("repeat", n=0),
         o("repeat", n=1),
